@@ -1241,6 +1241,7 @@ pub fn run(rec: &mut Rec, rng: &mut Rng, n_ops: usize, mode: &str) {
     #[cfg(not(feature = "xen"))]
     if mode == "mixed" {
         foreign_error_probe(rec);
+        top::probe(rec, rng);
     }
     let mut g = Gen { w: GmWorld::new(), rec, next_rid: 0, xk: "unix" };
     let xen = mode == "xen";
@@ -1505,5 +1506,118 @@ pub fn xen_probes(rec: &mut Rec) {
             Err(sig) => rec.fail("C17", &format!("xen-ondemand/{}/crash", name), &format!("child ended with signal/exit {}", sig)),
         }
         let _ = vm_memory::verif_hooks::xen_log_take();
+    }
+}
+
+// ------------------------------------------------------------------------------------------------
+// C02 (also C03/C07) for another implementation at the very top of the address space: a hand-written
+// `GuestMemoryRegion` may end exactly at 2^64 (its last byte is guest address 2^64-1), which `GuestRegionMmap::new`
+// never allows.  Every address query and every access of a `GuestMemory` built from such regions — relying on the
+// provided methods only — is compared with the plain meaning over the set of mapped addresses (u128 arithmetic).
+// Oracle-only probe: the Lean model's layouts satisfy `start + len < 2^64` (what the safe constructor enforces).
+#[cfg(not(feature = "xen"))]
+pub mod top {
+    use super::*;
+    use vm_memory::{AtomicAccess, ReadVolatile, VolatileMemory, VolatileSlice, WriteVolatile};
+    pub struct TopRegion { start: u64, buf: std::cell::UnsafeCell<Vec<u8>> }
+    unsafe impl Sync for TopRegion {}
+    impl TopRegion {
+        fn vs(&self) -> VolatileSlice<'_, ()> {
+            let v = unsafe { &mut *self.buf.get() };
+            unsafe { VolatileSlice::new(v.as_mut_ptr(), v.len()) }
+        }
+    }
+    type R<T> = Result<T, GuestMemoryError>;
+    impl Bytes<MemoryRegionAddress> for TopRegion {
+        type E = GuestMemoryError;
+        fn write(&self, buf: &[u8], a: MemoryRegionAddress) -> R<usize> { self.vs().write(buf, a.raw_value() as usize).map_err(Into::into) }
+        fn read(&self, buf: &mut [u8], a: MemoryRegionAddress) -> R<usize> { self.vs().read(buf, a.raw_value() as usize).map_err(Into::into) }
+        fn write_slice(&self, buf: &[u8], a: MemoryRegionAddress) -> R<()> { self.vs().write_slice(buf, a.raw_value() as usize).map_err(Into::into) }
+        fn read_slice(&self, buf: &mut [u8], a: MemoryRegionAddress) -> R<()> { self.vs().read_slice(buf, a.raw_value() as usize).map_err(Into::into) }
+        fn read_volatile_from<F: ReadVolatile>(&self, a: MemoryRegionAddress, src: &mut F, count: usize) -> R<usize> { self.vs().read_volatile_from(a.raw_value() as usize, src, count).map_err(Into::into) }
+        fn read_exact_volatile_from<F: ReadVolatile>(&self, a: MemoryRegionAddress, src: &mut F, count: usize) -> R<()> { self.vs().read_exact_volatile_from(a.raw_value() as usize, src, count).map_err(Into::into) }
+        fn write_volatile_to<F: WriteVolatile>(&self, a: MemoryRegionAddress, dst: &mut F, count: usize) -> R<usize> { self.vs().write_volatile_to(a.raw_value() as usize, dst, count).map_err(Into::into) }
+        fn write_all_volatile_to<F: WriteVolatile>(&self, a: MemoryRegionAddress, dst: &mut F, count: usize) -> R<()> { self.vs().write_all_volatile_to(a.raw_value() as usize, dst, count).map_err(Into::into) }
+        fn store<T: AtomicAccess>(&self, val: T, a: MemoryRegionAddress, order: Ordering) -> R<()> { self.vs().store(val, a.raw_value() as usize, order).map_err(Into::into) }
+        fn load<T: AtomicAccess>(&self, a: MemoryRegionAddress, order: Ordering) -> R<T> { self.vs().load(a.raw_value() as usize, order).map_err(Into::into) }
+    }
+    impl GuestMemoryRegion for TopRegion {
+        type B = ();
+        fn len(&self) -> u64 { unsafe { &*self.buf.get() }.len() as u64 }
+        fn start_addr(&self) -> GuestAddress { GuestAddress(self.start) }
+        fn bitmap(&self) -> &() { &() }
+        fn get_slice(&self, offset: MemoryRegionAddress, count: usize) -> R<VolatileSlice<'_, ()>> {
+            // bounds as `VolatileSlice::get_slice`; the slice is built over the buffer directly (its lifetime is the region's)
+            let (off, len) = (offset.raw_value(), self.len());
+            let end = off.checked_add(count as u64).ok_or(GuestMemoryError::InvalidBackendAddress)?;
+            if end > len { return Err(GuestMemoryError::InvalidBackendAddress); }
+            let v = unsafe { &mut *self.buf.get() };
+            Ok(unsafe { VolatileSlice::new(v.as_mut_ptr().add(off as usize), count) })
+        }
+    }
+    pub struct TopMem { pub regions: Vec<TopRegion> }
+    impl GuestMemory for TopMem {
+        type R = TopRegion;
+        fn num_regions(&self) -> usize { self.regions.len() }
+        fn find_region(&self, addr: GuestAddress) -> Option<&TopRegion> {
+            self.regions.iter().find(|r| addr.0 >= r.start && addr.0 - r.start < r.len())
+        }
+        fn iter(&self) -> impl Iterator<Item = &TopRegion> { self.regions.iter() }
+    }
+
+    pub fn probe(rec: &mut Rec, rng: &mut Rng) {
+        // layouts: the last region ends exactly at 2^64; below it a touching region, or a hole, or nothing
+        for (k, lay) in [vec![(u64::MAX - 0xfff, 0x1000usize)], vec![(u64::MAX - 0x1fff, 0x1000), (u64::MAX - 0xfff, 0x1000)],
+                         vec![(u64::MAX - 0x2fff, 0x800), (u64::MAX - 0xf, 0x10)], vec![(0u64, 0x20), (u64::MAX, 1)]].into_iter().enumerate() {
+            let m = TopMem { regions: lay.iter().map(|&(s, l)| TopRegion { start: s, buf: std::cell::UnsafeCell::new(vec![0u8; l]) }).collect() };
+            let mapped = |a: u128| lay.iter().any(|&(s, l)| a >= s as u128 && a < s as u128 + l as u128);
+            let run_len = |a: u64, cap: usize| { let mut n = 0usize; while n < cap && mapped(a as u128 + n as u128) && (a as u128 + n as u128) < (1u128 << 64) { n += 1; } n };
+            let mut addrs: Vec<u64> = vec![0, 1, u64::MAX, u64::MAX - 1, u64::MAX - 7, u64::MAX - 8];
+            for &(s, l) in &lay { for d in [0u64, 1, 2] { addrs.push(s.wrapping_sub(d)); addrs.push(s.wrapping_add(d)); addrs.push(s.wrapping_add(l as u64 - 1).wrapping_sub(d)); } }
+            for _ in 0..40 { let &(s, l) = rng.pick(&lay); addrs.push(s + rng.below(l as u64)); }
+            let lens: Vec<usize> = vec![0, 1, 2, 7, 8, 9, 16, 0x10, 0x11, 0x800, 0x1000, 0x1001, 0x2000, usize::MAX];
+            let bad = |rec: &mut Rec, what: &str, detail: String| {
+                rec.fail("C02", &format!("top/{}", what), &format!("layout#{} {:?}: {}", k, lay, detail));
+                if what.starts_with("write") || what.starts_with("read") {
+                    // the same observation read against the flat sparse byte array (C03)
+                    rec.fail("C03", &format!("top/{}", what), &format!("layout#{} {:?}: {}", k, lay, detail));
+                }
+            };
+            let want_last = lay.iter().map(|&(s, l)| s as u128 + l as u128 - 1).max().unwrap() as u64;
+            if m.last_addr().0 != want_last { bad(rec, "last_addr", format!("{:#x} want {:#x}", m.last_addr().0, want_last)); }
+            for &a in &addrs {
+                let ga = GuestAddress(a);
+                let r = guarded(|| {
+                    let mut out: Vec<(&'static str, String)> = vec![];
+                    if m.address_in_range(ga) != mapped(a as u128) { out.push(("address_in_range", format!("a={:#x}", a))); }
+                    if m.check_address(ga).is_some() != mapped(a as u128) { out.push(("check_address", format!("a={:#x}", a))); }
+                    if m.to_region_addr(ga).is_some() != mapped(a as u128) { out.push(("to_region_addr", format!("a={:#x}", a))); }
+                    for &n in &lens {
+                        let all = n == 0 || (run_len(a, n.min(0x3000)) == n);
+                        if m.check_range(ga, n) != all { out.push(("check_range", format!("a={:#x} n={:#x} got {} want {}", a, n, !all, all))); }
+                        let end = a as u128 + n as u128;
+                        let want_co = end < (1u128 << 64) && mapped(end);
+                        if m.checked_offset(ga, n).is_some() != want_co { out.push(("checked_offset", format!("a={:#x} n={:#x}", a, n))); }
+                        if n > 0 && n <= 0x2000 {
+                            // a write then a read of n bytes: the count is the length of the mapped run, an error iff the first byte is unmapped
+                            let data = vec![0xc3u8; n];
+                            let k = run_len(a, n);
+                            match m.write(&data, ga) { Ok(c) if c == k && k > 0 => {}, Err(GuestMemoryError::InvalidGuestAddress(_)) if k == 0 => {}, other => out.push(("write", format!("a={:#x} n={:#x} run={:#x} -> {:?}", a, n, k, other))) }
+                            let mut back = vec![0u8; n];
+                            match m.read(&mut back, ga) { Ok(c) if c == k && k > 0 && back[..k] == data[..k] => {}, Err(GuestMemoryError::InvalidGuestAddress(_)) if k == 0 => {}, other => out.push(("read", format!("a={:#x} n={:#x} run={:#x} -> {:?}", a, n, k, other))) }
+                            let want_all = k == n;
+                            if m.write_slice(&data, ga).is_ok() != want_all { out.push(("write_slice", format!("a={:#x} n={:#x}", a, n))); }
+                            if m.read_slice(&mut back, ga).is_ok() != want_all { out.push(("read_slice", format!("a={:#x} n={:#x}", a, n))); }
+                        }
+                    }
+                    out
+                });
+                match r {
+                    None => { rec.fail("C07", "top/panic", &format!("layout#{} {:?} a={:#x}", k, lay, a)); bad(rec, "panic", format!("a={:#x}", a)); }
+                    Some(v) => for (w, d) in v.into_iter().take(3) { bad(rec, w, d); },
+                }
+            }
+        }
+        rec.note("top_of_address_space_probes");
     }
 }
